@@ -19,6 +19,12 @@ EVIDENCE = os.path.join(VERIF_ROOT, "evidence")
 REGRESS = os.path.join(VERIF_ROOT, "regress")
 HELPERS = os.path.join(VERIF_ROOT, "vlib", "helpers")  # importable sink/canary modules
 
+import _pickle  # noqa: E402
+import pickle  # noqa: E402
+
+# the four bindings as CPython ships them, captured before fickling is ever imported
+PICKLE_ORIG = (pickle.load, pickle.loads, _pickle.load, _pickle.loads)
+
 sys.dont_write_bytecode = True
 os.environ.setdefault("PYTHONDONTWRITEBYTECODE", "1")
 
